@@ -252,40 +252,61 @@ theorem allLeaf_lineCells {ver : Nat} {shares : List Bytes} {e : Eds} (h : NewOK
   obtain ⟨sh, hsh, rfl⟩ := List.mem_map.mp hx
   exact ⟨sh.ns, sh.data, ns_length (h.cells i hi ax sh hsh).size, rfl⟩
 
-/-- **Two accepted squares with the same row roots are the same square** (idealised hash) -/
-theorem dah_binds {H : HashFn} (hk : HashOK H) {ver ver' : Nat} {X X' : List Bytes} {e e' : Eds}
+/-- **Two accepted squares with the same row roots are the same square** — no collision among the byte strings hashed
+    by `Dah.ofEds` for the two squares -/
+theorem dah_binds {H : HashFn} {ver ver' : Nat} {X X' : List Bytes} {e e' : Eds}
     (h : NewOK ver X e) (h' : NewOK ver' X' e') {dah : Dah} (hd : Dah.ofEds H e = .ok dah)
-    (hd' : Dah.ofEds H e' = .ok dah) : X = X' ∧ e = e' := by
+    (hd' : Dah.ofEds H e' = .ok dah) (hk : HashOKOn H (fun y => y ∈ edsInputs H e ++ edsInputs H e')) : X = X' ∧ e = e' := by
   obtain ⟨hrl, _, hrows, _⟩ := dah_ofEds_roots hd
   obtain ⟨hrl', _, hrows', _⟩ := dah_ofEds_roots hd'
   have hw : e'.width = e.width := by omega
   have hcellEq : ∀ i, i < e.width → ∀ c, c < e.width →
       X.getD (i * e.width + c) [] = X'.getD (i * e.width + c) [] := by
     intro i hi c hc
+    have hi' : i < e'.width := by omega
     obtain ⟨r, hr1, hr2⟩ := hrows i hi
-    obtain ⟨r', hr1', hr2'⟩ := hrows' i (by omega)
+    obtain ⟨r', hr1', hr2'⟩ := hrows' i hi'
     have hrr : r = r' := by rw [hr2] at hr2'; injection hr2'
     subst hrr
     obtain ⟨q, hq1, hq2⟩ := h.axisRoot H .row hi
-    obtain ⟨q', hq1', hq2'⟩ := h'.axisRoot H .row (i := i) (by omega)
+    obtain ⟨q', hq1', hq2'⟩ := h'.axisRoot H .row hi'
     rw [hr1] at hq1; injection hq1 with hq1; subst hq1
     rw [hr1'] at hq1'; injection hq1' with hq1'; subst hq1'
-    have hl := computeRoot_hash_inj hk (allLeaf_lineCells h H .row hi) (allLeaf_lineCells h' H .row (i := i) (by omega))
+    have hax := h.axis .row hi
+    have hax' := h'.axis .row hi'
+    have hcs : ∀ sh ∈ lineCells e.width X .row i, NS_SIZE ≤ sh.data.length := by
+      intro sh hs; rw [(h.cells i hi .row sh hs).size]; decide
+    have hcs' : ∀ sh ∈ lineCells e'.width X' .row i, NS_SIZE ≤ sh.data.length := by
+      intro sh hs; rw [(h'.cells i hi' .row sh hs).size]; decide
+    have al := (axis_allLeafOn (H := H) hax hcs).mono
+      (fun y hy => (List.mem_append_left (edsInputs H e') (axisInputs_mem_eds hi hy) : y ∈ edsInputs H e ++ edsInputs H e'))
+    have al' := (axis_allLeafOn (H := H) hax' hcs').mono
+      (fun y hy => (List.mem_append_right (edsInputs H e) (axisInputs_mem_eds hi' hy) : y ∈ edsInputs H e ++ edsInputs H e'))
+    have hl := computeRoot_hash_inj_on hk (List.mem_append_left _ (nil_mem_edsInputs H e)) al al'
+      (fun y hy => List.mem_append_left _ (axisInputs_mem_eds hi (axis_rootInputs_mem hax hy)))
+      (fun y hy => List.mem_append_right _ (axisInputs_mem_eds hi' (axis_rootInputs_mem hax' hy)))
       hq2 hq2' rfl
     rw [hw] at hl
     simp only [lineCells, List.map_map] at hl
     have := (List.map_inj_left.mp hl) c (List.mem_range.mpr hc)
     simp only [Function.comp_apply, axisCoord, Share.leafHash] at this
-    have hsz : ∀ sh ∈ lineCells e.width X .row i, sh.data.length = SHARE_SIZE := fun sh hs => (h.cells i hi .row sh hs).size
-    have hsz' : ∀ sh ∈ lineCells e'.width X' .row i, sh.data.length = SHARE_SIZE :=
-      fun sh hs => (h'.cells i (by omega) .row sh hs).size
     have m1 : cell e.width X i c ∈ lineCells e.width X .row i :=
       List.mem_map.mpr ⟨c, List.mem_range.mpr hc, rfl⟩
     have m2 : cell e.width X' i c ∈ lineCells e'.width X' .row i := by
       rw [hw]; exact List.mem_map.mpr ⟨c, List.mem_range.mpr hc, rfl⟩
     have hn : (cell e.width X i c).ns.length = (cell e.width X' i c).ns.length := by
-      rw [ns_length (hsz _ m1), ns_length (hsz' _ m2)]
-    exact (hashLeaf_inj hk hn (congrArg NsHash.hash this)).2
+      rw [ns_length (h.cells i hi .row _ m1).size, ns_length (h'.cells i hi' .row _ m2).size]
+    have hS1 : leafInput (cell e.width X i c).ns (cell e.width X i c).data ∈ edsInputs H e ++ edsInputs H e' := by
+      apply List.mem_append_left
+      apply axisInputs_mem_eds hi (ax := .row)
+      unfold axisInputs; rw [hax]
+      exact List.mem_append_left _ (List.mem_map.mpr ⟨_, m1, rfl⟩)
+    have hS2 : leafInput (cell e.width X' i c).ns (cell e.width X' i c).data ∈ edsInputs H e ++ edsInputs H e' := by
+      apply List.mem_append_right
+      apply axisInputs_mem_eds hi' (ax := .row)
+      unfold axisInputs; rw [hax']
+      exact List.mem_append_left _ (List.mem_map.mpr ⟨_, m2, rfl⟩)
+    exact (hashLeaf_inj_on hk.inj hn hS1 hS2 (congrArg NsHash.hash this)).2
   have hX : X = X' := by
     rw [← square_eq_grid h.sq.symm, ← square_eq_grid (k := e.width) (ods := X') (by rw [← hw]; exact h'.sq.symm)]
     congr 1
